@@ -186,7 +186,7 @@ func (n *IfNode) Render(w io.Writer, ctx *RenderContext) error {
 		// Log result if debug is enabled
 		conditionResult := ctx.toBool(result)
 		if IsDebugEnabled() {
-			LogDebug("Condition result: %v (type: %T, raw value: %v)", conditionResult, result, result)
+			LogDebug("Condition result: %v (type: %T, raw value: %s)", conditionResult, result, stableString(result))
 		}
 
 		// If condition is true, render the corresponding body
@@ -1675,7 +1675,7 @@ func (n *PrintNode) Render(w io.Writer, ctx *RenderContext) error {
 
 	// Log the output if debug is enabled (verbose level)
 	if IsDebugEnabled() && debugger.level >= DebugVerbose {
-		LogVerbose("Print node rendering at line %d: value=%v, type=%T", n.line, result, result)
+		LogVerbose("Print node rendering at line %d: value=%s, type=%T", n.line, stableString(result), result)
 	}
 
 	// Write the result as-is without modification
